@@ -137,7 +137,9 @@ def write_inputs(d: str, seed: int, n: int) -> List[Tuple[str, str, str]]:
                 out.append((p, "aasx", f"damaged-part:{tag}"))
     garbage = [b"", b"{", b"[1,2]", b'{"submodels": 5}', b'{"submodels": [{"modelType": "Submodel"}]}', b"\xff\xfe\x00\x01", b"<a>", b"<a/>",
                b'<?xml version="1.0"?><environment xmlns="https://admin-shell.io/aas/3/0"><submodels><submodel/></submodels></environment>',
-               b"PK\x03\x04garbage", bytes(rng.randrange(256) for _ in range(64))]
+               b"PK\x03\x04garbage", bytes(rng.randrange(256) for _ in range(64)),
+               # (session 6, found by the thorough tier) bytes that are invalid in the document's encoding: lxml reports them as OSError when it reads a FILE
+               b"<a>\xff</a>", b'<?xml version="1.0" encoding="UTF-8"?><a x="\xff"/>']
     for j, g in enumerate(garbage):
         for fmt in ("json", "xml", "aasx"):
             p = os.path.join(d, f"g{j}.{fmt}")
